@@ -1,6 +1,7 @@
 package main
 
 import (
+	"reflect"
 	"bytes"
 	"fmt"
 	"math/rand"
@@ -179,6 +180,31 @@ func c13ListCase(r *mon.Run, lc listCase, c mon.Case) {
 	}
 	if injected != plain {
 		r.Violate("null-item-changes-output", c, "%s renders differently from the same list without the null items\n--- with ---\n%s\n--- without ---\n%s", desc(), injected, plain)
+	}
+	// the slice the items were passed in stays the caller's: dropping the null items must not rearrange it, and a
+	// second construct built from the same slice renders like the first
+	{
+		its := lc.items(true, nil)
+		its = append(make([]jen.Code, 0, len(its)+3), its...)
+		snap := append([]jen.Code(nil), its...)
+		r1, fa := rawOf(k.mk(its...))
+		r2, fb := rawOf(k.mk(its...))
+		moved := -1
+		for i := range its {
+			if (its[i] == nil) != (snap[i] == nil) || (its[i] != nil && reflect.ValueOf(its[i]).Pointer() != reflect.ValueOf(snap[i]).Pointer()) {
+				moved = i
+				break
+			}
+		}
+		switch {
+		case fa != "" || fb != "":
+			r.Violate("null-item-failure", c, "%s built twice from one slice does not render: %s %s", desc(), fa, fb)
+		case moved >= 0:
+			r.Violate("null-item-changes-output", c, "%s(items...): dropping the null items rearranged the caller's slice (element %d is another item now)", desc(), moved)
+		case r1 != plain || r2 != plain:
+			r.Violate("null-item-changes-output", c, "%s built twice from the same slice (items...): the renderings differ from the list without the null items\n--- first ---\n%s\n--- second ---\n%s\n--- without ---\n%s", desc(), r1, r2, plain)
+		}
+		r.Count("slice_reuse_cases", 1)
 	}
 	// exactly the remaining items, in order
 	var got []string
